@@ -35,7 +35,14 @@ type Tgt struct {
 	// FlagNamed: the BUILD file spells the name as "<prefix>" + MODE (root package, Proj.Flag != ""): Name is what that
 	// evaluates to under the arguments every load of the history is given
 	FlagNamed bool `json:"flagNamed,omitempty"`
+	// SelfLists: the function takes `self` and its body works on the lists the engine hands it — it reads self.sources
+	// in order, writes self.generates, and mixes self.dependencies / self.sources / self.generates (order, multiplicity)
+	// into its outputs — instead of spelling paths in its code. Glob targets always do.
+	SelfLists bool `json:"selfLists,omitempty"`
 }
+
+// usesSelf: the body works on self.sources / self.dependencies / self.generates
+func (t *Tgt) usesSelf() bool { return t.Glob != "" || t.SelfLists }
 
 func (t *Tgt) Label() string { return "//" + t.Pkg + ":" + t.Name }
 
@@ -232,7 +239,7 @@ func (p *Proj) globMatches(t *Tgt) []string {
 
 // codeReads: the read list as the function's code spells it
 func (p *Proj) codeReads(t *Tgt) []string {
-	if t.Glob == "" {
+	if !t.usesSelf() {
 		return p.readPaths(t)
 	}
 	out := []string{"<self.sources>"}
@@ -253,7 +260,12 @@ func (p *Proj) hasGlob() bool {
 	return false
 }
 
-// srcsOf: the declared sources of t: the explicit list, then what its glob matches now
+// rawSrcs: the list sources= evaluates to, entry by entry (duplicates kept): the explicit list, then what the glob matches
+func (p *Proj) rawSrcs(t *Tgt) []string {
+	return append(append([]string{}, t.Srcs...), p.globMatches(t)...)
+}
+
+// srcsOf: the declared sources of t as a set in order of first appearance: the explicit list, then what its glob matches now
 func (p *Proj) srcsOf(t *Tgt) []string {
 	out := append([]string{}, t.Srcs...)
 	for _, f := range p.globMatches(t) {
@@ -308,7 +320,7 @@ func quoteList(xs []string, prefix string) string {
 
 func (p *Proj) form(t *Tgt) string {
 	switch {
-	case t.Free >= 0 && t.Glob == "": // (a glob target's function takes `self`: never the closure form)
+	case t.Free >= 0 && !t.usesSelf(): // (a function that takes `self` is never rendered in the closure form)
 		return "closure"
 	case t.Dflt >= 0:
 		return "default"
@@ -354,6 +366,10 @@ func (p *Proj) descriptor(t *Tgt) string {
 	}
 	// the default and the free variable are part of the code only in the form that spells them (a glob target with a
 	// free value is rendered plain or with a default; a closure has no default parameter)
+	w := strings.Join(t.Gens, ",")
+	if t.usesSelf() {
+		w = "<self.generates>"
+	}
 	d, f := "-", "-"
 	switch p.form(t) {
 	case "default":
@@ -362,7 +378,7 @@ func (p *Proj) descriptor(t *Tgt) string {
 		f = p.lit("free|"+t.Label(), t.Free)
 	}
 	return fmt.Sprintf("%s|%s|v%d|c%s|g:%s|h:%s|d%s|f%s|r:%s|w:%s", t.Label(), p.form(t), t.CodeVer, p.lit("const|"+t.Label(), t.Const), g, h,
-		d, f, strings.Join(p.codeReads(t), ","), strings.Join(t.Gens, ","))
+		d, f, strings.Join(p.codeReads(t), ","), w)
 }
 
 func (p *Proj) renderBuild(pkg string) string {
@@ -431,7 +447,7 @@ func (p *Proj) renderBuild(pkg string) string {
 			kw += ", default=True"
 		}
 		body := fmt.Sprintf("vb.body(%q, %s, %s, %s)", t.Label(), quoteList(p.readPaths(t), ""), quoteList(t.Gens, ""), p.valsExpr(t))
-		if t.Glob != "" {
+		if t.usesSelf() {
 			// what a glob matches cannot be spelled in the code (names need not even be valid UTF-8): the body reads the
 			// sources the engine hands it (self.sources, absolute paths), then the outputs of the dependencies it reads
 			var depGens []string
@@ -440,7 +456,7 @@ func (p *Proj) renderBuild(pkg string) string {
 					depGens = append(depGens, dt.Gens...)
 				}
 			}
-			body = fmt.Sprintf("vb.body(%q, self.sources + %s, %s, %s)", t.Label(), quoteList(depGens, ""), quoteList(t.Gens, ""), p.valsExpr(t))
+			body = fmt.Sprintf("vb.body(%q, self.sources + %s, self.generates, %s, [self.dependencies, self.sources, self.generates])", t.Label(), quoteList(depGens, ""), p.valsExpr(t))
 		}
 		doc := fmt.Sprintf("\"\"\"target %s, doc %d\"\"\"", t.Name, t.Doc)
 		fmt.Fprintf(&sb, "# %s (comment %d)\n", t.Name, p.Noise[pkg])
@@ -452,7 +468,7 @@ func (p *Proj) renderBuild(pkg string) string {
 			fmt.Fprintf(&sb, "@target(%s)\ndef %s_fn(self, dflt=%s):\n%s%s\n%s%s\n\n", kw, t.Name, p.lit("dflt|"+t.Label(), t.Dflt), ind, doc, ind, body)
 		default:
 			params := ""
-			if t.Glob != "" {
+			if t.usesSelf() {
 				params = "self"
 			}
 			fmt.Fprintf(&sb, "@target(%s)\ndef %s_fn(%s):\n%s%s\n%s%s\n\n", kw, t.Name, params, ind, doc, ind, body)
@@ -673,6 +689,38 @@ func (e *Edit) apply(p *Proj, root string) error {
 		t := p.tgt(e.Target)
 		t.Srcs = remove(t.Srcs, e.Path)
 		rebuild = true
+	case "reorder":
+		// rotate the entries of sources= / deps= / generates= by one: the same set, another order
+		t := p.tgt(e.Target)
+		rot := func(xs []string) []string {
+			if len(xs) < 2 {
+				return xs
+			}
+			return append(append([]string{}, xs[1:]...), xs[0])
+		}
+		switch e.Name {
+		case "srcs":
+			t.Srcs = rot(t.Srcs)
+		case "deps":
+			t.Deps = rot(t.Deps)
+		case "gens":
+			t.Gens = rot(t.Gens)
+		default:
+			return fmt.Errorf("reorder: unknown list %q", e.Name)
+		}
+		rebuild = true
+	case "dup":
+		// repeat entry Val of sources= / deps= at the end of the list: the same set, another multiplicity
+		t := p.tgt(e.Target)
+		switch {
+		case e.Name == "srcs" && e.Val < len(t.Srcs):
+			t.Srcs = append(t.Srcs, t.Srcs[e.Val])
+		case e.Name == "deps" && e.Val < len(t.Deps):
+			t.Deps = append(t.Deps, t.Deps[e.Val])
+		default:
+			return fmt.Errorf("dup: no entry %d in %q", e.Val, e.Name)
+		}
+		rebuild = true
 	case "break":
 		if p.Broken == nil {
 			p.Broken = map[string]bool{}
@@ -875,14 +923,18 @@ func (p *Proj) modelDefs(n *numbering, fps map[string]string) []string {
 		for _, d := range t.Deps {
 			deps = append(deps, n.label(d))
 		}
+		// the declared dependencies are the list the engine builds: deps=, then sources= entry by entry (duplicates kept:
+		// order and multiplicity are part of what a record remembers, D32); a body that spells its reads in its code
+		// reads each source once, a body that works on self.sources reads the list as it is
+		raw := p.rawSrcs(t)
+		for _, s := range raw {
+			deps = append(deps, n.label(sourceLabelOf(s)))
+		}
 		srcs := p.srcsOf(t)
-		if t.Glob != "" {
-			// the body processes self.sources as a sorted set (see vbBody): the order of the list is no input
-			srcs = append([]string{}, srcs...)
-			sort.Slice(srcs, func(i, j int) bool { return realPath(srcs[i]) < realPath(srcs[j]) })
+		if t.usesSelf() {
+			srcs = raw
 		}
 		for _, s := range srcs {
-			deps = append(deps, n.label(sourceLabelOf(s)))
 			reads = append(reads, n.label(sourceLabelOf(s)))
 			if !srcSeen[s] {
 				srcSeen[s] = true
@@ -899,7 +951,12 @@ func (p *Proj) modelDefs(n *numbering, fps map[string]string) []string {
 		if t.Always {
 			al = 1
 		}
-		out = append(out, fmt.Sprintf("def %d f %d %d 0 %s %s %s %d", n.label(t.Label()), al, envOf(t.Label(), p.descriptor(t)), natList(deps), natList(reads), natList(gens), n.code(p.descriptor(t))))
+		code := p.descriptor(t)
+		kind := "f"
+		if t.usesSelf() {
+			kind = "F" // the model's body is handed the lists as well
+		}
+		out = append(out, fmt.Sprintf("def %d %s %d %d 0 %s %s %s %d", n.label(t.Label()), kind, al, envOf(t.Label(), p.descriptor(t)), natList(deps), natList(reads), natList(gens), n.code(code)))
 		if t.Default && !hasDefault[t.Pkg] {
 			hasDefault[t.Pkg] = true
 			out = append(out, fmt.Sprintf("def %d f 0 %d 0 %d - - 0", n.label(defaultLabel(t.Pkg)), envOf(defaultLabel(t.Pkg), "<default>"), n.label(t.Label())))
